@@ -9,6 +9,7 @@ import (
 	"os"
 	"strings"
 	"syscall"
+	"time"
 	"unsafe"
 
 	"github.com/islishude/bip39"
@@ -195,6 +196,17 @@ func recToSeed(m, p string, alias bool, extra Event) (seed []byte) {
 		}
 		e["aliased"] = same || changed
 		e["seed2"] = ints(c2)
+		// the caller wipes the seed it was given (ordinary key hygiene) and derives again: same arguments, same seed
+		for i := range s1 {
+			s1[i] = 0
+		}
+		var s3 []byte
+		o3 := guarded(func() { s3 = bip39.MnemonicToSeed(m, p) })
+		e["seed3"] = ints(s3)
+		if o3.panicked || o3.timeout {
+			o = o3
+		}
+		copy(s1, seed)
 	}
 	emit(merge(o.into(e), extra))
 	if !concMode && len(keptSeeds) < 64 && len(s1) > 0 {
@@ -302,7 +314,9 @@ type scriptReader struct {
 	after   string // behaviour when the script is exhausted: "EOF" or "data"
 	total   int
 	quiet   bool
-	pattern string // "" = seeded random bytes; otherwise a fixed shape of output
+	pattern string        // "" = seeded random bytes; otherwise a fixed shape of output
+	chunk   int           // > 0: a working source that never hands out more than this many bytes per Read
+	delay   time.Duration // > 0: a working source that is slow to answer (every Read takes this long)
 }
 
 func (s *scriptReader) produce(k int) []byte {
@@ -349,6 +363,12 @@ func (s *scriptReader) Read(p []byte) (int, error) {
 	k := st.K
 	if k > len(p) {
 		k = len(p)
+	}
+	if s.chunk > 0 && k > s.chunk {
+		k = s.chunk
+	}
+	if s.delay > 0 {
+		time.Sleep(s.delay)
 	}
 	b := s.produce(k)
 	copy(p, b)
